@@ -25,6 +25,7 @@ import EaselModel.Sqio.PositionSpec
 import EaselModel.Sqio.PositionAny
 import EaselModel.Sqio.TrackerChunks
 import EaselModel.Sqio.SpecSuffix
+import EaselModel.Sqio.PositionCalls
 /-! # C04 — all ways of reading a sequence file agree with each other and with the file
 
 Property theorems only (proofs are glue on `Sqio/Windows.lean`, `Sqio/Refine.lean`, `Sqio/Spec.lean`).
@@ -905,6 +906,38 @@ theorem position_at_record_then_read_all_eq_scan_tail (bytes : Bytes) (abc : Nat
 example :
     let sc := specFasta 0 [62, 97, 10, 65, 67, 10, 62, 98, 10, 71, 10]
     sc.1.map (·.roff) = [0, 6] ∧ sc.1.map (·.seq) = [[65, 67], [71]] ∧ sc.2 = .eof := by decide +kernel
+
+/-- **`ReadInfo` and `ReadSequence` after Position at a scanned record return that record** (round 6b), for every block size: both
+    succeed; `ReadInfo` reports the record's name, description, `roff` / `hoff` / `doff` / `eoff` and `L`; `ReadSequence` its residues,
+    `roff` / `doff` / `eoff` and `L` — with `position_then_read_eq_record`: all three record calls agree with the scan after a Position. -/
+theorem position_then_readInfo_readSequence_eq_record (bytes : Bytes) (abc : Nat) (habc : abc ∈ [0, 1, 2, 3]) (s : Sq)
+    (hs : s ∈ (parseFasta abc bytes).1)
+    (a : Ascii) (hf : a.file = bytes) (hb : a.linebased = false) (hr : a.recording ≠ 1) (hB : 1 ≤ a.B)
+    (hi : a.inmap = inmapFasta abc) (hfmt : a.fmt = 1) (heof : a.eofIsOk = true)
+    (sq : Sq) (hdig : sq.digital = (abc != 0)) (hsabc : sq.abc = abc) (hseq : sq.seq = #[]) (hna : 2 ≤ sq.nalloc) (hda : 2 ≤ sq.dalloc)
+    (hsa : 2 ≤ sq.salloc) :
+    let p := (position a s.roff.toNat).1
+    (readInfo p sq).2.2 = .ok ∧ (readSequence p sq).2.2 = .ok ∧
+    (readInfo p sq).2.1.name.toList = s.name.toList ∧ (readInfo p sq).2.1.desc.toList = s.desc.toList ∧
+    (readInfo p sq).2.1.roff = s.roff ∧ (readInfo p sq).2.1.hoff = s.hoff ∧ (readInfo p sq).2.1.doff = s.doff ∧
+    (readInfo p sq).2.1.eoff = s.eoff ∧ (readInfo p sq).2.1.L = s.L ∧
+    (readSequence p sq).2.1.seq = s.seq ∧ (readSequence p sq).2.1.roff = s.roff ∧ (readSequence p sq).2.1.doff = s.doff ∧
+    (readSequence p sq).2.1.eoff = s.eoff ∧ (readSequence p sq).2.1.L = s.L :=
+  PositionCalls.position_info_seq bytes abc habc s hs a hf hb hr hB hi hfmt heof sq hdig hsabc hseq hna hda hsa
+
+open EaselModel.Sqio.WindowSeries EaselModel.Sqio.WinSpecPure in
+/-- **The forward `ReadWindow` series after Position at a scanned record = the declarative windows of that record** (round 6b), for every
+    block size and every request stream `(C_k ≥ 0, W_k ≥ 1)` (in particular `C > W`): `specWindows s.seq req`, then `eslEOD` with `L = s.L`. -/
+theorem position_then_windows_eq_record_windows (bytes : Bytes) (abc : Nat) (habc : abc ∈ [0, 1, 2, 3]) (s : Sq)
+    (hs : s ∈ (parseFasta abc bytes).1)
+    (a : Ascii) (hf : a.file = bytes) (hb : a.linebased = false) (hr : a.recording ≠ 1) (hB : 1 ≤ a.B)
+    (hi : a.inmap = inmapFasta abc) (hfmt : a.fmt = 1) (heof : a.eofIsOk = true)
+    (sq : Sq) (hdig : sq.digital = (abc != 0)) (hsabc : sq.abc = abc) (hseq : sq.seq = #[]) (hna : 2 ≤ sq.nalloc) (hda : 2 ≤ sq.dalloc)
+    (hst : sq.start = 0) (req : Nat → Int × Int) (hreq : ∀ k, 0 ≤ (req k).1 ∧ 1 ≤ (req k).2) (F : Nat) (hF : s.seq.size + 2 ≤ F) :
+    let p := (position a s.roff.toNat).1
+    (readWindowsM req F 0 p sq).1.map toWin = specWindows s.seq req F 0 0 0 ∧
+    (readWindowsM req F 0 p sq).2.2.2 = .eod ∧ (readWindowsM req F 0 p sq).2.2.1.L = s.L :=
+  PositionCalls.position_windows bytes abc habc s hs a hf hb hr hB hi hfmt heof sq hdig hsabc hseq hna hda hst req hreq F hF
 
 end position
 
